@@ -30,6 +30,9 @@ FORMS = {
     "or_fallback": (["on: int? = nil", "acc = on or x"], lambda x, d: ([], x)),
     "unwrap_into_rhs": (["on: int? = nil", "on ?= x", "acc = get on"], lambda x, d: ([], x)),
     "unary_minus": (["acc = -x"], lambda x, d: ([], -x)),
+    # the closure only WRITES the variable (setter / reset closures)
+    "modify_target": (["modify x = d", "acc = d"], lambda x, d: ([], d)),
+    "modify_target_typed": (["modify x: int = d", "acc = d"], lambda x, d: ([], d)),
     "str_concat": (['print "v" + x', "acc = d"], lambda x, d: (["v%d" % x], d)),
     "nested_depth2": (["n2 = fn(e: int) -> int {", "\treturn e + x", "}", "acc = n2(d)"], lambda x, d: ([], d + x)),
     "nested_depth3": (["n2 = fn(e: int) -> int {", "\tn3 = fn(g: int) -> int {", "\t\treturn g * x", "\t}", "\treturn n3(e)", "}", "acc = n2(d)"],
@@ -54,6 +57,7 @@ LIST_FORMS = {
     "push_into": (["xl.push(d)", "acc = d"], lambda x, d: ([], d)),
     "index_of": (["acc = (xl.index_of(d)) or 9"], lambda x, d: ([], x.index(d) if d in x else 9)),
 }
+LIST_FORMS["modify_target_typed"] = (["modify xl: [int...] = [d]", "acc = d"], lambda x, d: ([], d))
 LIST_FORMS["assign_target"] = (["xl[0] = d", "acc = d"], lambda x, d: ([], d))
 LIST_FORMS["opassign_target"] = (["xl[1] += d", "acc = d"], lambda x, d: ([], d))
 MAP_FORMS = {
